@@ -68,3 +68,9 @@ pub open spec fn cfb_buf_run(e: spec_fn(Blk) -> Blk, iv: Seq<u8>, pos: int, data
 pub open spec fn ofb_ks(e: spec_fn(Blk) -> Blk) -> KStep {
     |a: KAbs| { let o = e(a.base); (KAbs { base: o, pos: a.pos }, o) }
 }
+
+// BelT-CTR (STB 34.101.31): keystream block = E(le128(s + 1)), s := s + 1 mod 2^128.  pos = s.
+pub open spec fn two128() -> int { u128::MAX as int + 1 }
+pub open spec fn belt_ks(e: spec_fn(Blk) -> Blk) -> KStep {
+    |a: KAbs| { let s1 = (a.pos + 1) % two128(); (KAbs { base: a.base, pos: s1 }, e(le_bytes(s1, 16))) }
+}
